@@ -291,6 +291,7 @@ TIE_NAMES = {'encode_varint': 'utils.encode_varint', 'prepend_compact_size': 'ut
              'tx_ids': 'Transaction.get_txid / _get_hash (get_wtxid) / get_size',
              'segwit_digest': 'Transaction.get_transaction_segwit_digest (BIP143, whole function)',
              'taproot_digest': 'Transaction.get_transaction_taproot_digest (BIP341/342, whole function)',
+             'legacy_digest': 'Transaction.get_transaction_digest (legacy signature hash, whole function)',
              'locking_scripts': 'Script.to_p2sh/to_p2wsh_script_pub_key, the hash accessors and the five to_script_pub_key methods'}
 
 
